@@ -110,11 +110,11 @@ theorem pow2_facts (d c : Nat) :
   omega
 
 /-- admissible (length, level) pairs of the recursive calls of `bst` -/
-def Inv (n e : Nat) : Prop :=
+def BstInv (n e : Nat) : Prop :=
   n = 0 ∨ (1 ≤ e ∧ 2 ^ (e - 1) ≤ n ∧ n < 2 * 2 ^ (e - 1)) ∨ (2 ≤ e ∧ n + 1 = 2 ^ (e - 1))
 
-theorem inv_bstLevel (n : Nat) : Inv n (bstLevel n) := by
-  unfold Inv bstLevel
+theorem inv_bstLevel (n : Nat) : BstInv n (bstLevel n) := by
+  unfold BstInv bstLevel
   rcases Nat.eq_zero_or_pos n with h | h
   · exact Or.inl h
   · right; left
@@ -143,15 +143,15 @@ theorem bstK_succ_succ (n c : Nat) :
     · rw [if_neg (by omega), if_pos h2]; congr 1; omega
     · rw [if_pos (by omega), if_neg h2]
 
-theorem bstK_shape {n e : Nat} (hn : n ≠ 0) (hinv : Inv n e) :
-    ∃ k, bstK n e = some k ∧ k < n ∧ Inv k (e - 1) ∧ Inv (n - k - 1) (e - 1) ∧
+theorem bstK_shape {n e : Nat} (hn : n ≠ 0) (hinv : BstInv n e) :
+    ∃ k, bstK n e = some k ∧ k < n ∧ BstInv k (e - 1) ∧ BstInv (n - k - 1) (e - 1) ∧
       (∀ t, t < k ↔ gIdx 1 t < n) ∧ (∀ t, t < n - k - 1 ↔ gIdx 2 t < n) := by
   match e, hinv with
   | 0, hinv =>
-    unfold Inv at hinv; omega
+    unfold BstInv at hinv; omega
   | 1, hinv =>
     have hn1 : n = 1 := by
-      unfold Inv at hinv; simp at hinv; omega
+      unfold BstInv at hinv; simp at hinv; omega
     subst hn1
     refine ⟨0, by decide, by omega, Or.inl rfl, Or.inl rfl, ?_, ?_⟩
     · intro t
@@ -163,7 +163,7 @@ theorem bstK_shape {n e : Nat} (hn : n ≠ 0) (hinv : Inv n e) :
   | c + 2, hinv =>
     have hsub : c + 2 - 1 = c + 1 := by omega
     have hsub' : c + 1 - 1 = c := by omega
-    unfold Inv at hinv
+    unfold BstInv at hinv
     rw [hsub, Nat.pow_succ] at hinv
     rw [bstK_succ_succ, hsub]
     have hp : 0 < 2 ^ c := Nat.pow_pos (by decide)
@@ -177,8 +177,8 @@ theorem bstK_shape {n e : Nat} (hn : n ≠ 0) (hinv : Inv n e) :
     by_cases h1 : n ≥ 3 * 2 ^ c - 1
     · rw [if_pos h1]
       refine ⟨2 * 2 ^ c - 1, rfl, by omega, ?_, ?_, ?_, ?_⟩
-      · unfold Inv; rw [hsub']; right; left; omega
-      · unfold Inv; rw [hsub']; omega
+      · unfold BstInv; rw [hsub']; right; left; omega
+      · unfold BstInv; rw [hsub']; omega
       · intro t
         have := log2_spec t
         have := pow2_facts (Nat.log2 (t + 1)) c
@@ -197,8 +197,8 @@ theorem bstK_shape {n e : Nat} (hn : n ≠ 0) (hinv : Inv n e) :
       have h2 : n ≥ 2 ^ c := by omega
       rw [if_pos h2]
       refine ⟨n - 2 ^ c, rfl, by omega, ?_, ?_, ?_, ?_⟩
-      · unfold Inv; rw [hsub']; omega
-      · unfold Inv; rw [hsub']; omega
+      · unfold BstInv; rw [hsub']; omega
+      · unfold BstInv; rw [hsub']; omega
       · intro t
         have := log2_spec t
         have := pow2_facts (Nat.log2 (t + 1)) c
@@ -338,7 +338,7 @@ theorem bstAssign_step {α : Type} (inp : List α) (i e k : Nat) (h0 : inp.lengt
     rfl
 
 theorem bstAssign_main {α : Type} :
-    ∀ (N : Nat) (inp : List α) (i e : Nat), inp.length = N → Inv N e →
+    ∀ (N : Nat) (inp : List α) (i e : Nat), inp.length = N → BstInv N e →
       ∃ as, bstAssign inp i e = some as ∧
         (as.map Prod.fst).Perm ((List.range N).map (gIdx i)) ∧
         ∀ get : Nat → α, (∀ p ∈ as, get p.1 = p.2) →
